@@ -1,5 +1,6 @@
 import I2P.Driver.Util
 import I2P.Kac
+import I2P.Identity
 namespace I2P.Driver
 open I2P I2P.Kac
 
@@ -23,6 +24,16 @@ def showKeyCert : Option (KeyCert × Bytes) → String
   | none => "err"
   | some (kc, rem) => s!"ok rem={rem.length} spk={kc.spk} cpk={kc.cpk} bytes={toHex kc.cert.bytes}"
 
+def showDestAddr (d : Bytes) : Option (KeysAndCert × Bytes) → String
+  | none => "err"
+  | some (k, _) =>
+    s!"ok hash={optHex (Identity.hash (fun _ => d) k)} b32={optHex (Identity.base32Address (fun _ => d) k)} b64={optHex (Identity.base64 k)}"
+
+def showLookup (c : Nat) : String :=
+  let s := match Spec.sigInfo c with | none => "unknown" | some (k, l) => s!"{k}/{l}"
+  let cr := match Spec.cryptoInfo c with | none => "unknown" | some n => s!"{n}"
+  s!"sig={s} crypto={cr}"
+
 def kacOps : List (String × Op) := [
   ("readCert", fun | [h] => do let w ← parseHex h; pure (showCert (readCert w)) | _ => none),
   ("readKeyCert", fun | [h] => do let w ← parseHex h; pure (showKeyCert (newKeyCert w)) | _ => none),
@@ -30,7 +41,11 @@ def kacOps : List (String × Op) := [
   ("readKacElgEd", fun | [h] => do let w ← parseHex h; pure (showKac (readKacFast 0 w)) | _ => none),
   ("readKacXEd", fun | [h] => do let w ← parseHex h; pure (showKac (readKacFast 4 w)) | _ => none),
   ("readDest", fun | [h] => do let w ← parseHex h; pure (showKac (readDestination w)) | _ => none),
-  ("readRid", fun | [h] => do let w ← parseHex h; pure (showKac (readRouterIdentity w)) | _ => none)
+  ("readRid", fun | [h] => do let w ← parseHex h; pure (showKac (readRouterIdentity w)) | _ => none),
+  -- identity accessors; the SHA-256 of the serialisation is an oracle answer carried on the line
+  ("destAddr", fun | [h, sha] => do let w ← parseHex h; let d ← parseHex sha; pure (showDestAddr d (readDestination w)) | _ => none),
+  -- every size lookup on one type code (out-of-range codes are unknown)
+  ("lookup", fun | [c] => do let c ← parseInt c; pure (if c < 0 ∨ c ≥ 65536 then "sig=unknown crypto=unknown" else showLookup c.toNat) | _ => none)
 ]
 
 end I2P.Driver
